@@ -107,6 +107,21 @@ CHECKS = {
              "(quoting-sensitive strings, extreme integers, floats incl. subnormals and +-Inf, dates in both formats).",
         technique="TLC model checking of the file/columns state machine + replay on the real codec + value-pool round trips",
         engine="tlc"),
+    "C12": dict(
+        category="model_checking",
+        text="spec/Sync.tla: job queue, W workers each stepping Take -> LastDate -> GetSince -> Append (one repository call per "
+             "step), injected faults, two consecutive runs, unsynchronised shared memory modelled so that DataRace is a reachable "
+             "state predicate. TLC checks Copied, Idempotent, Reported, NoDuplicates, InFlightBound over 100-470 scenarios (asset "
+             "lists, source/target contents, fault subsets, start date) x W in 1..3 x all interleavings, Termination under fairness, "
+             "and prints what the property prescribes per scenario. Sync.Run executes every scenario with recording, "
+             "fault-injecting wrappers (a barrier forces workers to overlap) over in-memory and file-system targets for W in "
+             "{1,2,4,16}; final contents and returned errors are compared, call logs are validated by TLC (SyncTrace.tla), and the "
+             "scenarios run under the Go race detector.",
+        design_ref="DESIGN.md 2.6, 5 (C12)",
+        note="Trusted: TLC, the recording wrappers, the Go race detector (data races are detected by it; the model shows them "
+             "reachable in the design). Asset lists without duplicates; dates 1..5.",
+        technique="TLC model checking of the coordinator + scenario replay on the real Sync.Run + TLC trace validation + race detector",
+        engine="tlc"),
     "C14": dict(
         category="model_checking",
         text="Report() of every strategy (base, compound, decorated) x configurations x n beyond the warm-up: the network recorded "
